@@ -13,9 +13,8 @@ open Hw Hw.Topo Hw.Calc Driver
 structure State where
   part : TopoEng.Partial := {}
   cur : Option Dump := none
-  strict : Bool := false        -- answer what the property demands (instead of what the code does) for the known defect classes
 
-def init (strict : Bool) : State := { strict := strict }
+def init : State := {}
 
 def unesc (s : String) : Option (List Nat) :=
   if s = "%_" then some [] else
@@ -35,34 +34,12 @@ def esc (l : List Nat) : String :=
   String.join (l.map (fun b => if safeByte b then String.singleton (Char.ofNat b)
     else "%" ++ String.singleton (hexChar (b / 16)) ++ String.singleton (hexChar (b % 16))))
 
-def showRes (strict : Bool) (r : Res) : String :=
+def showRes (r : Res) : String :=
   match r with
   | .exit 0 (some o) => "rc=0 out=" ++ esc o
   | .exit 0 none => "rc=0 out=?"
   | .exit _ _ => "rc=nz"
-  | .exitBadLevel => if strict then "rc=nz" else "rc=0 out=%_ known:F42"
   | .skip why => "skip:" ++ why
-  | .hang => if strict then "rc=nz" else "known:F40-hang"
-  | .abort => if strict then "rc=nz" else "known:F41-abort"
-  | .nullName => if strict then "rc=nz" else "known:F43-nullname"
-
-def knownOf (r : Res) : Option Res :=
-  match r with
-  | .hang => some .hang
-  | .abort => some .abort
-  | .nullName => some .nullName
-  | _ => none
-
-/-- when the model gives up on a run (`skip`) one of the *other* arguments may still belong to a known defect class (the real
-    tool then hangs / aborts although the model stopped at the unmodelled argument): every token is evaluated on its own, with
-    logical and with physical indexes -/
-def knownIn (d : Dump) (toks : List (List Nat)) : Option Res :=
-  toks.findSome? (fun a => (knownOf (calcMain d [a] [])).orElse (fun _ => knownOf (calcMain d [str "-p", a] [])))
-
-def refine (d : Dump) (toks : List (List Nat)) (r : Res) : Res :=
-  match r with
-  | .skip _ => (knownIn d toks).getD r
-  | _ => r
 
 /-- the set printed by a plain run (list format), if the run succeeds -/
 def plainSet (d : Dump) (args : List (List Nat)) : Option (List Nat) :=
@@ -72,15 +49,15 @@ def plainSet (d : Dump) (args : List (List Nat)) : Option (List Nat) :=
 
 def splitSpaces (o : List Nat) : List (List Nat) := tokensOf o
 
-def answer (st : State) (d : Dump) (t : List String) : Option String :=
+def answer (d : Dump) (t : List String) : Option String :=
   match t with
   | "CALC" :: _ :: sin :: args => do
     let sin ← unesc sin
     let args ← args.mapM unesc
-    pure (showRes st.strict (refine d (args ++ tokensOf sin) (calcMain d args sin)))
+    pure (showRes (calcMain d args sin))
   | "DISTRIB" :: _ :: args => do
     let args ← args.mapM unesc
-    pure (showRes st.strict (distribMain d args))
+    pure (showRes (distribMain d args))
   | "LRT" :: args => do
     let args ← args.mapM unesc
     match calcMain d (str "--largest" :: args) [], plainSet d args with
@@ -90,10 +67,7 @@ def answer (st : State) (d : Dump) (t : List String) : Option String :=
       match plainSet d back with
       | some s2 => pure (if s1 == s2 then "same=1" else "same=0")
       | none => pure "na"
-    | .skip w, _ => pure (showRes st.strict (refine d args (.skip w)))
-    | .hang, _ => pure (showRes st.strict .hang)
-    | .abort, _ => pure (showRes st.strict .abort)
-    | .nullName, _ => pure (showRes st.strict .nullName)
+    | .skip w, _ => pure ("skip:" ++ w)
     | _, _ => pure "na"
   | "NI" :: lvl :: args => do
     let lvl ← unesc lvl
@@ -104,11 +78,8 @@ def answer (st : State) (d : Dump) (t : List String) : Option String :=
       let nn := n.filter (· != 10)
       if nn.isEmpty || !nn.all isDigitB then pure "na" else
       pure (if nn == decDigits items.length then "same=1" else "same=0")
-    | .skip w, _ => pure (showRes st.strict (refine d args (.skip w)))
-    | _, .skip w => pure (showRes st.strict (refine d args (.skip w)))
-    | .hang, _ => pure (showRes st.strict .hang)
-    | .abort, _ => pure (showRes st.strict .abort)
-    | .nullName, _ => pure (showRes st.strict .nullName)
+    | .skip w, _ => pure ("skip:" ++ w)
+    | _, .skip w => pure ("skip:" ++ w)
     | _, _ => pure "na"
   | ["LSTOPO", _, _, _, _, lib] => pure (if lib = "lib=ok" then "rc=0 same=1 reload=1" else "rc=nz")
   | ["DIFFPATCH", _, cx, _, _] => pure (if cx = "complex=0" then "diff=0 patch=0 equiv=1" else if cx = "complex=1" then "diff=nz" else "bad-op")
@@ -129,6 +100,6 @@ def step (st : State) (line : String) : State × String :=
   | _ =>
     match st.cur with
     | none => (st, "no-topology")
-    | some d => (st, (answer st d t).getD "bad-op")
+    | some d => (st, (answer d t).getD "bad-op")
 
 end Driver.ToolsEng
